@@ -201,6 +201,46 @@ def run(ctx):
                     ctx.count('impossible-record')
                     if goti != want_i and want_i == 'err ValueError':
                         ctx.fail('Circuit.backward', 'impossible record not rejected with ValueError (%s)' % goti, dict(rep, record=flip))
+            # a second run of the same circuit object on another input: the record and the log-probability accumulate, and a
+            # backward pass without a supplied record replays the outcomes of the LAST run (not of the first one)
+            if nm > 0 and it % 2 == 0:
+                rowsB, _rB = G.rand_tableau(rng, N, 0)
+                stB = impl.state(rowsB, 0)
+                sdB = rng.randrange(1 << 30)
+                R.seed_numba(sdB)
+                circ.forward(stB)
+                allres = [int(v) for v in circ.measure_result]
+                resB = allres[len(results):]
+                postB = impl.ops_of(stB)
+                repB = dict(rep, second_input=rowsB, second_seed=sdB, record_after_two_runs=allres)
+                ctx.count('history:second-run')
+                if allres[:len(results)] != results or len(resB) != nm:
+                    ctx.fail('Circuit.forward', 'after a second run the record %s is not the first run\'s record %s followed by %d new outcomes' % (allres, results, nm), repB)
+                else:
+                    kindsB, detB, actB = oracle_traj(prog, rowsB, 0, N, resB)
+                    nrandB = sum(1 for k in kindsB if k != 'determined')
+                    if abs(float(circ.log2prob) + nrand + nrandB) > 1e-9:
+                        ctx.fail('Circuit.forward', 'log2prob accumulated over two runs is %s, the two trajectories have log2 probability %d and %d' % (float(circ.log2prob), -nrand, -nrandB), repB)
+                    if int(stB.r) == 0:
+                        st_own = impl.state(postB, 0)
+                        try:
+                            circ.backward(st_own)
+                        except ValueError as e_:
+                            ctx.fail('Circuit.backward', 'after two forward runs, backward() with the own record raised %r on the state the last run ended in (it does not replay the last run\'s outcomes)' % (e_,), repB)
+                            continue
+                        # reference: a fresh circuit with the same program, the last run's outcomes supplied explicitly
+                        fresh = CI.Circuit(N)
+                        for d in prog:
+                            if d['kind'] == 'meas':
+                                fresh.measure(*d['qubits'])
+                            else:
+                                fresh.take(CU.impl_gate(impl, d))
+                        st_ref = impl.state(postB, 0)
+                        fresh.backward(st_ref, measure_result=list(resB))
+                        g_own = O.canon_group(impl.ops_of(st_own)[int(st_own.r):N])[0]
+                        g_ref = O.canon_group(impl.ops_of(st_ref)[int(st_ref.r):N])[0]
+                        if g_own != g_ref:
+                            ctx.fail('Circuit.backward', 'after two forward runs, backward() with the own record does not replay the outcomes of the last run', repB)
         except Exception as e:
             import traceback
             ctx.fail('Circuit', 'implementation raised %r' % e, dict(rep, tb=traceback.format_exc()[-700:]))
